@@ -66,8 +66,15 @@ func keepOracle(c fcfg, o fop) bool {
 }
 
 // c16HasEncoding: operations that get a multipart body with an encoding header (see buildFilterDoc)
-func c16HasEncoding(o fop) bool {
-	return o.Schema != "" && !o.NoID && (o.Method == "POST" || o.Method == "PUT" || o.Method == "PATCH")
+func c16HasEncoding(o fop, ops []fop) bool {
+	n := 0
+	for _, x := range ops {
+		if x.ID == o.ID {
+			n++
+		}
+	}
+	// (an id that two operations share — the larger documents have such — keeps its plain shape)
+	return n == 1 && o.Schema != "" && !o.NoID && (o.Method == "POST" || o.Method == "PUT" || o.Method == "PATCH")
 }
 
 func buildFilterDoc(ops []fop, schemas []string) J {
@@ -98,7 +105,7 @@ func buildFilterDoc(ops []fop, schemas []string) J {
 			resp = J{"$ref": "#/components/responses/R" + o.ID}
 		}
 		op := J{"operationId": o.ID, "responses": J{"200": resp}}
-		if c16HasEncoding(o) && schemas != nil {
+		if c16HasEncoding(o, ops) && schemas != nil {
 			// a multipart body whose part has a header of its own, declared under the media type's encoding: the
 			// header's schema is needed as long as the operation is
 			op["requestBody"] = J{"content": J{"multipart/form-data": J{"schema": J{"type": "object", "properties": J{"f": J{"type": "string"}}},
@@ -265,7 +272,7 @@ func c16Generate(ctx *Ctx, ops []fop, schemas []string, cfg fcfg, fw string) err
 			if op.Schema != "" {
 				needed[op.Schema] = true
 			}
-			if c16HasEncoding(op) && schemas != nil {
+			if c16HasEncoding(op, ops) && schemas != nil {
 				needed["Enc"+op.ID] = true
 			}
 		}
@@ -292,12 +299,16 @@ func c16Generate(ctx *Ctx, ops []fop, schemas []string, cfg fcfg, fw string) err
 	cms, ok := interfaceMethods(f, "ClientInterface")
 	if ok {
 		var base []string
-		seenBase := map[string]bool{}
+		plain := map[string]bool{}
 		for _, m := range cms {
-			// an operation with a body has <Op>WithBody, and <Op> as well when a media type has a typed builder
-			b := strings.TrimSuffix(m, "WithBody")
-			if !seenBase[b] {
-				seenBase[b] = true
+			if !strings.HasSuffix(m, "WithBody") {
+				plain[m] = true
+				base = append(base, m)
+			}
+		}
+		for _, m := range cms {
+			// an operation whose body has no typed builder (multipart) has <Op>WithBody only
+			if b := strings.TrimSuffix(m, "WithBody"); b != m && !plain[b] {
 				base = append(base, b)
 			}
 		}
